@@ -982,6 +982,80 @@ func (fl *Flow) literalFieldsInto(fs *FactSet, lhs, rhs ast.Expr) {
 
 // applyStore handles a store to a non-identifier location.
 func (fl *Flow) applyStore(fs *FactSet, lhs ast.Expr) {
+	// a local that holds a copy of the reference being overwritten (n := *ref … *ref = X) keeps
+	// what was known about the old content: "not a leaf" is carried over to the copy before the
+	// alias is forgotten
+	var carry, carryNonNil []*ast.Ident
+	if t := fl.info.TypeOf(lhs); t != nil && fl.m.NodeRef != nil && types.Identical(t, fl.m.NodeRef) {
+		want := fs.canon(lhs)
+		leafV := fl.m.LeafKind.Value
+		for _, f := range fs.m {
+			if f.Kind != FAlias {
+				continue
+			}
+			id, ok := ast.Unparen(f.L).(*ast.Ident)
+			if !ok {
+				continue
+			}
+			cv, _ := fl.info.ObjectOf(id).(*types.Var)
+			if cv == nil || fl.escaped[cv] || !types.Identical(cv.Type(), fl.m.NodeRef) || fs.canon(id) != want {
+				continue
+			}
+			if known, excl := fs.tagOf(id); (known != nil && *known != leafV) || excl[leafV] {
+				carry = append(carry, id)
+			}
+			if fs.nilnessOfField(id, "pointer") == 1 {
+				carryNonNil = append(carryNonNil, id)
+			}
+		}
+	}
+	fl.applyStoreInner(fs, lhs)
+	for _, id := range carry {
+		lc := fl.m.leafConstExpr()
+		st, _ := fl.m.NodeRef.Underlying().(*types.Struct)
+		if lc == nil || st == nil {
+			break
+		}
+		var fld *types.Var
+		for k := 0; k < st.NumFields(); k++ {
+			if st.Field(k).Name() == "tag" {
+				fld = st.Field(k)
+			}
+		}
+		if fld == nil {
+			break
+		}
+		sel := &ast.SelectorExpr{X: id, Sel: ast.NewIdent("tag")}
+		if fl.synthSel == nil {
+			fl.synthSel = map[*ast.SelectorExpr]*types.Var{}
+		}
+		fl.synthSel[sel] = fld
+		fl.cmpInto(fs, sel, token.NEQ, lc, true, fl.m.pos(lhs.Pos()))
+	}
+	for _, id := range carryNonNil {
+		st, _ := fl.m.NodeRef.Underlying().(*types.Struct)
+		if st == nil {
+			break
+		}
+		var fld *types.Var
+		for k := 0; k < st.NumFields(); k++ {
+			if st.Field(k).Name() == "pointer" {
+				fld = st.Field(k)
+			}
+		}
+		if fld == nil {
+			break
+		}
+		sel := &ast.SelectorExpr{X: id, Sel: ast.NewIdent("pointer")}
+		if fl.synthSel == nil {
+			fl.synthSel = map[*ast.SelectorExpr]*types.Var{}
+		}
+		fl.synthSel[sel] = fld
+		fl.cmpInto(fs, sel, token.NEQ, ast.NewIdent("nil"), true, fl.m.pos(lhs.Pos()))
+	}
+}
+
+func (fl *Flow) applyStoreInner(fs *FactSet, lhs ast.Expr) {
 	v, through := rootVar(fl.info, lhs)
 	if v != nil && !through {
 		fs.killVar(v) // a field or element of a local value: the variable itself changes
